@@ -8,7 +8,7 @@
 (* silently, the last operation recorded and judged by NestedTrace).          *)
 EXTENDS Nested
 
-CONSTANTS EmitEdges
+CONSTANTS EmitEdges, EmitOneIn
 
 ShapeOf(c) == [v \in 1..MaxC |->
                 [kind |-> c[v].kind, par |-> c[v].par, ti |-> c[v].ti,
@@ -17,6 +17,6 @@ ShapeOf(c) == [v \in 1..MaxC |->
                             id |-> IF c[v].el[i].t = "c" THEN c[v].el[i].id ELSE 0]]]]
 View == <<ShapeOf(cont), live, nextVid, ShapeOf(committed), hasc>>
 
-MCNext == Next /\ (EmitEdges => PrintT(ToJson(hist')))
+MCNext == Next /\ ((EmitEdges /\ (EmitOneIn <= 1 \/ RandomElement(1..EmitOneIn) = 1)) => PrintT(ToJson(hist')))
 MCSpec == Init /\ [][MCNext]_nvars
 =============================================================================
